@@ -25,7 +25,7 @@ META = {
 
 def cases(tier):
     dims = [(3, 2, 1), (2, 2, 2)] if tier == "quick" else [(4, 2, 1), (3, 2, 2)]
-    out = []
+    out = [{"name": "from_file_2x1x2", "what": "from_file", "S": 2, "kinds": True}]
     for S, G, M in dims:
         for pi, perm in enumerate(itertools.permutations(range(S))):
             if perm == tuple(range(S)):
@@ -38,7 +38,68 @@ def cases(tier):
     return out
 
 
+def _run_from_file(case):
+    """the statistics object built by the loader from a recorded table: only finite recorded values enter the summaries"""
+    from ..twin import Twin
+    from .. import fsmodel
+    fs = fsmodel.FS()
+    mods, fopen = fsmodel.make_modules(fs)
+    T = Twin(fakes=mods, extra_builtins={"open": fopen})
+    PS = T.mod("panoptica.panoptica_statistics")
+    S = case["S"]
+    subj = ["s10", "s9", "s2"][:S]
+    mets = ["m0", "m1"]
+    KINDS = ["finite", "nan", "inf", "missing"]
+    val = {(s, m): z3.Real("v_%d_%d" % (s, m)) for s in range(S) for m in range(2)}
+    kind = {(s, m): z3.Int("k_%d_%d" % (s, m)) for s in range(S) for m in range(2)}
+    base = [z3.And(k >= 0, k <= 3) for k in kind.values()]
+
+    def decode(mo):
+        return {"what": "from_file", "subjects": subj, "metrics": mets,
+                "cells": {"%d,%d" % k: {"kind": KINDS[jsonable(kind[k], mo)], "value": jsonable(val[k], mo)} for k in val}}
+    h = H(PROP, case["name"], decode, replay_kind="from_file", max_witnesses=20)
+
+    def body():
+        fs.__init__()
+        cell = {}
+        for k in val:
+            kd = KINDS[ENG.concretize(kind[k], 0, 3)]
+            cell[k] = ({"finite": SNum(val[k], "float64"), "nan": float("nan"), "inf": float("inf"), "missing": None}[kd], kd)
+        rows = [["subject_name"] + ["g-%s" % m for m in mets]]
+        for s in range(S):
+            rows.append([subj[s]] + [fsmodel.to_text(cell[(s, m)][0]) for m in range(2)])
+        fs.files["/d/t.tsv"] = rows
+        try:
+            st = PS.Panoptica_Statistic.from_file("/d/t.tsv")
+        except EngineSignal:
+            raise
+        except Exception as e:
+            h.fail("table_loads", detail="%s: %s" % (type(e).__name__, str(e)[:120]))
+            return
+        for m in range(2):
+            present = [cell[(s, m)][0] for s in range(S) if cell[(s, m)][1] == "finite"]
+            try:
+                got = st.get("g", mets[m], remove_nones=True)
+            except EngineSignal:
+                raise
+            except Exception as e:
+                h.fail("values_available", detail="%s: %s" % (type(e).__name__, str(e)[:120]))
+                continue
+            h.ok("exactly_the_finite_recorded_values_enter", len(got) == len(present) and z3.And([SNum(a).t == b.t for a, b in zip(got, present)] + [z3.BoolVal(True)]),
+                 detail={"metric": mets[m], "loaded": len(got), "finite": len(present)})
+            if present:
+                sm = st.get_summary("g", mets[m])
+                pv = [x.t for x in present]
+                a = sm.avg
+                h.ok("avg_is_mean_of_present_values", (a.t if isinstance(a, SNum) else z3.RealVal(a)) * len(pv) == z3.Sum(pv))
+        h.note_nontrivial(tuple(k for (_, k) in cell.values()))
+        h.witness(expect=None)
+    return explore_case(h, body, base=base, time_budget=3000)
+
+
 def run_case(case):
+    if case.get("what") == "from_file":
+        return _run_from_file(case)
     from ..twin import get_twin
     T = get_twin()
     PS = T.mod("panoptica.panoptica_statistics")
@@ -186,4 +247,45 @@ def real_table(case, mode, expect):
     return {"match": True, "violates": bad is not None, "reason": bad, "observed": None}
 
 
-REAL = {"table": real_table}
+def real_from_file(case, mode, expect):
+    import math
+    import os
+    import shutil
+    import tempfile
+    from panoptica.panoptica_statistics import Panoptica_Statistic
+    subj, mets = case["subjects"], case["metrics"]
+    bad = None
+    for scale in (None, 1e-5, 1e17, 1 / 3):
+        def value(c):
+            if c["kind"] == "finite":
+                v = fl(c["value"])
+                return (v if v != 0 else 0.5) * scale if scale else v
+            return {"nan": float("nan"), "inf": float("inf"), "missing": None}[c["kind"]]
+        tmp = tempfile.mkdtemp(prefix="pv_c20_")
+        try:
+            path = os.path.join(tmp, "t.tsv")
+            with open(path, "w", encoding="utf8", newline="") as f:
+                f.write("\t".join(["subject_name"] + ["g-%s" % m for m in mets]) + "\n")
+                for s, sn in enumerate(subj):
+                    cells = [value(case["cells"]["%d,%d" % (s, m)]) for m in range(len(mets))]
+                    f.write("\t".join([sn] + ["" if c is None else repr(c) for c in cells]) + "\n")
+            try:
+                st = Panoptica_Statistic.from_file(path)
+                for m, mn in enumerate(mets):
+                    want = [value(case["cells"]["%d,%d" % (s, m)]) for s in range(len(subj))]
+                    want = [v for v in want if v is not None and not math.isnan(v) and not math.isinf(v)]
+                    got = st.get("g", mn, remove_nones=True)
+                    if list(got) != want:
+                        bad = "exactly_the_finite_recorded_values_enter: recorded finite values %s, statistics object holds %s" % (want, list(got))
+                    elif want and not close(st.get_summary("g", mn).avg, sum(want) / len(want)):
+                        bad = "avg_is_mean_of_present_values: %r" % st.get_summary("g", mn).avg
+            except Exception as e:
+                bad = "table_loads: %s: %s" % (type(e).__name__, str(e)[:160])
+        finally:
+            shutil.rmtree(tmp, ignore_errors=True)
+        if bad:
+            break
+    return {"match": True, "violates": bad is not None, "reason": bad, "observed": None}
+
+
+REAL = {"table": real_table, "from_file": real_from_file}
